@@ -502,7 +502,14 @@ def bump(res, key, n=1):
     res["counters"][key] = res["counters"].get(key, 0) + n
 
 
-def add_violation(res, sig, what, witness):
+_EXHAUSTION = re.compile(r"crash:(requested|allocation-size-too-big|out-of-memory)|bad_alloc")
+
+def add_violation(res, sig, what, witness, keep_exhaustion=False):
+    # memory exhaustion (ASan: requested allocation size exceeds the maximum, out-of-memory; std::bad_alloc) of a program
+    # that legitimately grows its data is outside every property's domain: counted, never reported.  Checks whose
+    # workloads cannot legitimately need much memory (C01 with small magnitudes, C18) pass keep_exhaustion=True.
+    if not keep_exhaustion and _EXHAUSTION.search(sig):
+        res["out_of_domain"] += 1; bump(res, "memory_exhaustion_out_of_domain"); return
     if len([v for v in res["violations"] if v["sig"] == sig]) < 3:
         res["violations"].append({"sig": sig, "what": what, "witness": witness})
     else:
@@ -580,8 +587,13 @@ def run_check(modname, tier, seed, replay=None, jobs=None):
             hit.append((sig, k, vs))
         else:
             new.append((sig, vs))
+    # one line per *listed* finding (a signature_regex family may be hit through many signatures)
+    seen_known = {}
     for sig, k, vs in hit:
-        print("KNOWN-FINDING: property=%s %s [%s]" % (prop, k.get("what", ""), sig))
+        seen_known.setdefault(id(k), (k, []))[1].append(sig)
+    for k, sigs in seen_known.values():
+        label = sigs[0] if len(sigs) == 1 else "%s (+%d more signatures of this family)" % (sigs[0], len(sigs) - 1)
+        print("KNOWN-FINDING: property=%s %s [%s]" % (prop, k.get("what", ""), label))
     rdir = os.path.join(VERIF, "replays", prop)
     for sig, vs in new:
         os.makedirs(rdir, exist_ok=True)
